@@ -54,6 +54,9 @@ def apply_descriptor(lines, d):
         sb = (ia[-1][1] + (sa if sa != 3 else 0)) - ib[0][1]
     if sa == 3 and ia and ib:
         sa = (ib[0][1] + sb) - ia[-1][1]
+    for ids_, sh in ((ia, sa), (ib, sb)):
+        if ids_ and not (-999 <= min(r[1] for r in ids_) + sh and max(r[1] for r in ids_) + sh <= 9999):
+            return None          # the relabelling must stay inside the four-column number field
     out = C.shift_numbers(out, sa, a)
     out = C.shift_numbers(out, sb, b)
     if mode == "sequential":
@@ -117,8 +120,9 @@ def run(ctx):
     if not ctx.thorough():
         sel, seen = [], set()
         for k, d in enumerate(descs):
-            key = (d["mode"], json.dumps(d["cm"], sort_keys=True), d["sa"] == 3, d["sb"] == 3)
-            if key not in seen or (k % 37 == ctx.seed % 37):
+            key = (d["mode"], json.dumps(d["cm"], sort_keys=True), d["sa"] == 3, d["sb"] == 3, abs(d["sa"]) == 1000, abs(d["sb"]) == 1000)
+            plain = d["mode"] == "none" and d["cm"]["A"] == "A" and d["cm"]["B"] == "B"     # every pair of shifts
+            if key not in seen or plain or (k % 37 == ctx.seed % 37):
                 seen.add(key)
                 sel.append(d)
         descs = sel
